@@ -115,6 +115,8 @@ def run_check(prop, tier, seed, a, t0):
     for u in units:
         fentry = {"file": u.contract.file, "function": u.contract.qual, "case": u.case.name, "source_sha": u.src_sha,
                   "lines": u.lines, "paths": u.n_paths}
+        if getattr(u, "renamed", None):
+            fentry["contract_text_followed_renamed_locals"] = u.renamed
         if u.error:
             fentry["tier"] = "B (not proved this run: %s)" % u.error_kind
             fentry["reason"] = u.error[:300]
@@ -172,6 +174,10 @@ def run_check(prop, tier, seed, a, t0):
     if a.update_ledger:
         ledger[prop] = {"obligations": sorted(set(ledger_now)), "sources": shas,
                         "shapes": {unit_key(u): u.shape for u in units if u.shape is not None and u.case.loops}}
+        fnn = ledger.setdefault("_fn_norm", {})
+        for u in units:
+            if getattr(u, "norm", None):
+                fnn["%s:%s" % (u.contract.file, u.contract.qual)] = u.norm
         json.dump(ledger, open(ledger_path, "w"), indent=0, sort_keys=True)
     elif not a.only:
         led = ledger.get(prop)
@@ -227,6 +233,20 @@ def run_check(prop, tier, seed, a, t0):
             if bounded.get("error"):
                 checker_failure.append("bounded harness error: " + bounded["error"][:600])
     # known findings whose witness no longer fails are not reported (a fixed defect needs no line)
+    # a failed obligation for which the verifier gave no replayable input: name the concrete witnesses the run-time
+    # evaluation of the same property found in this run (the line itself still ends with no-failing-input-found)
+    bounded_hits = [v for v in violations if v.get("bounded")]
+    for v in violations:
+        if "obligation" in v and "no-failing-input-found" in v["line"]:
+            try:
+                path = v["line"].split("replay=")[1].split(" ")[0]
+                doc = json.load(open(path))
+                doc["concrete_witnesses_from_the_bounded_stand_in_of_this_run"] = [
+                    {"failure": b["bounded"], "replay": b["line"].split("replay=")[1].split(" ")[0]} for b in bounded_hits[:5]]
+                with open(path, "w") as f:
+                    json.dump(doc, f, indent=1, default=str)
+            except Exception:
+                pass
     # ------------------------------------------------------------------ report
     for line in sorted(set(known_lines)):
         print(line)
@@ -325,6 +345,8 @@ def stale_loops(prop, u):
         p = os.path.join(ROOT, "contracts", "ledger.json")
         _LEDGER = json.load(open(p)) if os.path.exists(p) else {}
     then = _LEDGER.get(prop, {}).get("shapes", {}).get(unit_key(u))
+    if then is not None and getattr(u, "renamed", None):
+        then = [sorted(u.renamed.get(n, n) for n in lp) for lp in then]     # the contract followed a renaming of locals
     if then is None or not u.case.loops or u.shape is None or then == u.shape:
         return None
     return "loops assigned %s when the contract was proved, %s now" % (then, u.shape)
